@@ -122,6 +122,8 @@ class MemMapWorld(World):
                       "name": self._name(rng), "obj": -1}
                 if rng.chance(0.08):
                     op["twin"] = rng.below(8)         # a distinct object that compares equal
+                if rng.chance(0.2):
+                    op["name_as"] = "Name"
                 if rng.chance(0.06):
                     op["obj"] = rng.below(8)          # duplicate-object fault
                 if rng.chance(0.05):
@@ -184,6 +186,7 @@ class MemMapWorld(World):
             except (ValueError, TypeError) as e:
                 raise Refused(str(e))
             model.append(MMap(mc["aw"], mc["dw"], mc["al"]))
+        name_cache = {}
         objs = []           # (object, map index or None)
         never_added = [C(), C(), VC(0), VC(1), VC(2)]
         c02 = "C02" in props
@@ -423,8 +426,12 @@ class MemMapWorld(World):
                 elif bad == "not_component":
                     obj = object()
                 name_t = tuple(name) if isinstance(name, list) else name
+                name_arg = name_t
+                if op.get("name_as") == "Name" and valid_name(name) is True:
+                    # the caller keeps MemoryMap.Name constants and re-uses the same instance
+                    name_arg = name_cache.setdefault(name_t, MemoryMap.Name(name_t))
                 try:
-                    s, e = mm.add_resource(obj, name=name_t, size=size, addr=addr, alignment=pal)
+                    s, e = mm.add_resource(obj, name=name_arg, size=size, addr=addr, alignment=pal)
                     ok = True
                     exc = None
                 except Exception as ex:  # any exception is a refusal; its type is not judged here
